@@ -109,6 +109,33 @@ def comparison_table(ctx):
                     and isinstance(v.args[1], ast.Attribute) and v.args[1].attr == 'spec' and is_name(v.args[1].value, nm) \
                     and is_name(a0.targets[0], nm):
                 kinds[(nm, 'sub')] = True
+    # the same two substitutions written once for the operand pair: a comprehension over
+    # ``(lhs, rhs)`` for M, an indexed loop over the resulting list for M(T-expr), then unpacked
+    # back into the two operands
+    tgt = u.params[1]
+    for st in u.node.body:
+        if not (isinstance(st, ast.Assign) and is_name(st.targets[0]) and isinstance(st.value, ast.ListComp)):
+            continue
+        pair, lc = st.targets[0].id, st.value
+        g = lc.generators[0] if len(lc.generators) == 1 else None
+        if g is None or g.ifs or not is_name(g.target) or not (isinstance(g.iter, ast.Tuple) and [norm(e) for e in g.iter.elts] == [lhs, rhs]):
+            continue
+        v = g.target.id
+        unpack = [n for n in u.node.body if isinstance(n, ast.Assign) and isinstance(n.targets[0], ast.Tuple)
+                  and [norm(e) for e in n.targets[0].elts] == [lhs, rhs] and is_name(n.value, pair)]
+        if len(unpack) != 1:
+            continue
+        e = lc.elt
+        if isinstance(e, ast.IfExp) and isinstance(e.test, ast.Compare) and is_name(e.test.left, v) and isinstance(e.test.ops[0], ast.Is) \
+                and p.global_qualname(u, e.test.comparators[0]) == 'matching.M' and is_name(e.body, tgt) and is_name(e.orelse, v):
+            kinds[(lhs, 'M')] = kinds[(rhs, 'M')] = True
+        for lp in [n for n in u.node.body if isinstance(n, ast.For)]:
+            b = match(lp, 'for $i, $s in enumerate(%s):\n    if type($s) is _MSubspec:\n        %s[$i] = $$ev' % (pair, pair))
+            if b and u.node.body.index(st) < u.node.body.index(lp) < u.node.body.index(unpack[0]):
+                ev = b['ev']
+                if isinstance(ev, ast.Call) and p.is_evaluator_call(u, ev) and is_name(ev.args[0], tgt) \
+                        and isinstance(ev.args[1], ast.Attribute) and ev.args[1].attr == 'spec' and is_name(ev.args[1].value, b['s']):
+                    kinds[(lhs, 'sub')] = kinds[(rhs, 'sub')] = True
     for side in (lhs, rhs):
         ctx.ob(kinds.get((side, 'M')), u, 'a bare M on the %s side stands for the target' % side)
         ctx.ob(kinds.get((side, 'sub')), u, 'M(T-expr) on the %s side is evaluated on the target' % side)
